@@ -168,9 +168,52 @@ func (x *Exec) doSend(s *State, f *Frame, in *ssa.Send) bool {
 	return x.chanSend(s, f, p, v, true)
 }
 
+// maybePreempt forks the schedule at a visible operation: besides letting the current thread go on,
+// each other runnable thread may run first (consuming one unit of the pre-emption budget). The
+// alternative states are queued; the caller continues with s (no pre-emption).
+func (x *Exec) maybePreempt(s *State) {
+	t := s.thread()
+	if t.NoPreempt {
+		t.NoPreempt = false
+		return
+	}
+	if s.Preempt <= 0 {
+		return
+	}
+	for i, o := range s.Threads {
+		if i == s.Cur || o.Done || o.Blocked != nil || o.Quiescing {
+			continue
+		}
+		ns := s.clone()
+		ns.Preempt--
+		ns.thread().NoPreempt = true
+		ns.Cur = i
+		x.push(ns)
+	}
+}
+
+// maybePreemptFree is maybePreempt without budget (explicit Yield).
+func (x *Exec) maybePreemptFree(s *State) {
+	t := s.thread()
+	if t.NoPreempt {
+		t.NoPreempt = false
+		return
+	}
+	for i, o := range s.Threads {
+		if i == s.Cur || o.Done || o.Blocked != nil || o.Quiescing {
+			continue
+		}
+		ns := s.clone()
+		ns.thread().NoPreempt = true
+		ns.Cur = i
+		x.push(ns)
+	}
+}
+
 // chanSend: returns true if the send completed and the thread continues (pc advanced when adv).
 func (x *Exec) chanSend(s *State, f *Frame, p *PtrVal, v Value, adv bool) bool {
 	tb := x.tb
+	x.maybePreempt(s)
 	if nl := x.ptrIsNil(p); nl.IsTrue() {
 		x.block(s, "send", 0)
 		return false
